@@ -5,6 +5,7 @@ MODULES = {
     "C02": ["contracts.c02_itk"],
     "C03": ["contracts.c03_derived"],
     "C08": ["contracts.c08_linalg"],
+    "C14": ["contracts.c14_bspline"],
     "C15": ["contracts.c08_linalg"],
 }
 
